@@ -208,6 +208,11 @@ example : isRecursiveDivisionMaze
 `validGenDraw`: the wall map passes the recursive-division certificate, the two indices are DIFFERENT cells of non-zero
 probability.  `Maze.reset cfg g` is the transliterated `reset`. -/
 
+/-! NOTE (audit r6 #11): `validGenDraw` CONTAINS `isRecursiveDivisionMaze d.walls` — "for every admissible draw" below means "for every
+maze accepted by the certificate `isRecursiveDivisionMaze`" (and two different free cells); C10 connectivity is proved OF THE CERTIFICATE.
+The shared `generate_maze` is not transliterated: that its output passes the certificate is checked on real reset states by the harness
+(`maze.instance`), not proved.  Read `maze_generated_wellformed`, `maze_generate_obs_valid`, `maze_obs_valid_along` as `…_of_cert`. -/
+
 /-- for ALL admissible draws, all sizes: the reset state is `Consistent` (agent and target on free cells of the grid,
 walls of the configured shape, fresh mask), agent and target are on different cells, the counter is 0, and the target
 can be reached from the agent by 4-neighbour steps through free cells (so the instance is solvable) -/
@@ -305,12 +310,18 @@ example : Consistent Props.mazeCfg Props.mazeEx ∧ 0 ≤ Props.mazeEx.stepCount
     Props.mazeEx.stepCount < Props.mazeCfg.timeLimit := by decide
 /-- the bound on `step_count` is attained: the terminal step of a 1-step episode shows `time_limit` -/
 example : (step { Props.mazeCfg with timeLimit := 1 } Props.mazeEx 2).2.obs.stepCount = 1 := by decide
+/-! NOTE on what the membership theorems of this section do and do not cover (audits r4 #6, r5 #6, r6 #8): the dtype tag of every leaf
+is written by `toNValue` (by construction) — a wrong dtype in the real code cannot falsify `….valid (toNValue …) = true`; dtypes and
+field order of the real observations are compared by the `maze.spec` / `maze.state` ops (`nvalue`: field order, shape, dtype, data) and
+`jax.eval_shape` in the sweeps.  Shapes are READ OFF the value by `toNValue` (widths off the first row): see `…_obs_valid_only`. -/
+
 /-! #### (wave 4) membership in the DECLARED specs: structure, field order, shapes, dtypes and inclusive bounds -/
 open Sp PzS PkS
 
 /-- the model's `obsSpec` / `actionSpec` / reward and discount specs ARE the specs generated from the real spec objects
 (Gen/Specs.lean) for the three catalogue configurations of Maze (5×7 with a time limit, 3×5 and 4×4 with the default one):
-all seven observation leaves, in the order of the real `Spec` -/
+all seven observation leaves, in the order of the real `Spec`
+SPEC-ONLY fourth configuration `Maze(RandomGenerator(6, 9), time_limit=11)` -/
 theorem maze_obsSpec_generated :
     prefixed "observation_spec." (obsSpec ⟨5, 7, 9⟩) = declared "maze-5x7" "observation_spec." ∧
     prefixed "observation_spec." (obsSpec ⟨3, 5, 15⟩) = declared "maze-none-3x5" "observation_spec." ∧
@@ -318,8 +329,19 @@ theorem maze_obsSpec_generated :
     [("action_spec", Maze.actionSpec)] = declared "maze-5x7" "action_spec" ∧
     [("action_spec", Maze.actionSpec)] = declared "maze-none-3x5" "action_spec" ∧
     [("reward_spec", PzS.rewardSpec)] = declared "maze-5x7" "reward_spec" ∧
-    [("discount_spec", discountSpec)] = declared "maze-5x7" "discount_spec" := by
-  refine ⟨by decide, by decide, by decide, by decide, by decide, by decide, by decide⟩
+    [("discount_spec", discountSpec)] = declared "maze-5x7" "discount_spec" ∧
+    [("action_spec", Maze.actionSpec)] = declared "maze-none" "action_spec" ∧
+    [("reward_spec", PzS.rewardSpec)] = declared "maze-none-3x5" "reward_spec" ∧
+    [("discount_spec", discountSpec)] = declared "maze-none-3x5" "discount_spec" ∧
+    [("reward_spec", PzS.rewardSpec)] = declared "maze-none" "reward_spec" ∧
+    [("discount_spec", discountSpec)] = declared "maze-none" "discount_spec" ∧
+    prefixed "observation_spec." (obsSpec ⟨6, 9, 11⟩) = declared "spec-only-maze-6x9" "observation_spec." ∧
+    [("action_spec", Maze.actionSpec)] = declared "spec-only-maze-6x9" "action_spec" ∧
+    [("reward_spec", PzS.rewardSpec)] = declared "spec-only-maze-6x9" "reward_spec" ∧
+    [("discount_spec", discountSpec)] = declared "spec-only-maze-6x9" "discount_spec" := by
+  refine ⟨by decide +kernel, by decide +kernel, by decide +kernel, by decide +kernel, by decide +kernel, by decide +kernel,
+    by decide +kernel, by decide +kernel, by decide +kernel, by decide +kernel, by decide +kernel, by decide +kernel,
+    by decide +kernel, by decide +kernel, by decide +kernel, by decide +kernel⟩
 
 /-- the `reset` observation (ALL sizes) on top of ANY generated state whose walls have the configured shape and whose agent
 and target stand on free cells is accepted by `observation_spec.validate`: fields `agent_position.{row,col}`,
@@ -329,7 +351,8 @@ theorem maze_reset_obs_valid (cfg : Cfg) (g : State) (hs : Jx.Grid.shaped g.wall
     (ha : free cfg g.walls g.agent) (ht : free cfg g.walls g.target) :
     (obsSpec cfg).valid (toNValue (Maze.reset cfg g).2.obs) = true := Maze.reset_obs_valid cfg g hs ha ht
 
-/-- … in particular for EVERY admissible draw of `RandomGenerator` (a recursive-division maze of the configured size, two
+/-- … in particular for every maze accepted by the certificate `isRecursiveDivisionMaze` ("of certificate", audit r6 #11: not "every draw of
+`RandomGenerator`" — `generate_maze` is not transliterated; a maze of the configured size, two
 different free cells), where the reset state also satisfies the invariant `SpecInv` -/
 theorem maze_generate_obs_valid (cfg : Cfg) (d : GenDraw) (hv : validGenDraw cfg d) :
     (obsSpec cfg).valid (toNValue (Maze.reset cfg (generate cfg d)).2.obs) = true ∧
@@ -357,7 +380,7 @@ theorem maze_step_obs_valid (cfg : Cfg) (s : State) (h : SpecInv cfg s) (a : Nat
 example : SpecInv Props.mazeCfg Props.mazeEx := by decide
 
 /-- WHOLE EPISODES (and beyond): along the rollout (`Ep.rollout` = the L1 step iterated, no stop at LAST) of ANY in-spec
-actions from the reset of ANY admissible generator draw, EVERY emitted observation is a member of the spec and every
+actions from the reset of any maze accepted by the certificate `isRecursiveDivisionMaze` (with two different free cells), EVERY emitted observation is a member of the spec and every
 state satisfies the invariant -/
 theorem maze_obs_valid_along (cfg : Cfg) (d : GenDraw) (hv : validGenDraw cfg d) (as : List Nat) (has : ∀ a ∈ as, a < 4)
     (j : Nat) (e : State × TimeStep Obs)
@@ -372,7 +395,10 @@ theorem maze_rollout_obs_valid (cfg : Cfg) (s : State) (h : SpecInv cfg s) (as :
     (obsSpec cfg).valid (toNValue e.2.obs) = true ∧ SpecInv cfg e.1 := Maze.rollout_obs_valid cfg s h as has j e he
 
 /-- what membership means (so the theorems above are not hollow): `validate` accepts an observation ONLY IF agent and target
-are on cells of the grid, `walls` has the declared shape and the mask has four entries -/
+are on cells of the grid, `walls` has the declared shape and the mask has four entries  CAVEAT (audits r4 #7, r5 #5, r6 #5): for every field that is a nested list, `toNValue` reads the widths off the FIRST row of the
+nested list, so the shape conjuncts here mean "row count, length of the first row, total number of cells" — a ragged value with the right total can be a
+member, and nothing is concluded about the later rows.  Rectangularity is part of the invariant (`SpecInv` / `Shaped` / `Rect…`) under which the
+forward theorems (`…_reset_obs_valid`, `…_step_obs_valid`, `…_along`) are proved, i.e. it holds of every EMITTED observation. -/
 theorem maze_obs_valid_only (cfg : Cfg) (o : Obs) (h : (obsSpec cfg).valid (toNValue o) = true) :
     inGrid cfg o.agent ∧ inGrid cfg o.target ∧ shape2 o.walls = [cfg.numRows, cfg.numCols] ∧ o.actionMask.length = 4 :=
   Maze.obs_valid_only cfg o h
